@@ -147,7 +147,7 @@ func run(repo, prop, tier string, seed int64, onlyRule, replayKey string, verbos
 		cfgs = append(cfgs,
 			loadCfg{Name: "linux/386", Env: []string{"GOARCH=386", "CGO_ENABLED=0"}},
 			loadCfg{Name: "windows/amd64", Env: []string{"GOOS=windows", "CGO_ENABLED=0"}},
-			loadCfg{Name: "default+tests", Tests: true},
+			loadCfg{Name: "darwin/arm64", Env: []string{"GOOS=darwin", "GOARCH=arm64", "CGO_ENABLED=0"}},
 		)
 	}
 	var obs []*Ob
@@ -460,7 +460,7 @@ func dumpEmitSpec(repo string) {
 	}
 	fmt.Println("package main\n\n// Reference emission schemes per AST node form. Generated once from the pinned tree with\n// `gpycheck -dump emitspec`, then reviewed line by line against the Language Reference (evaluation order)\n// and CPython 3.4 Python/compile.c (compiler_visit_expr / compiler_visit_stmt and helpers); see DESIGN.md.\n// Labels are numbered by first appearance; LOOP(x){a | b} lists the alternative iterations over x.\n\nfunc init() {")
 	for _, a := range arms {
-		if a.method == "compileAst" || a.arm == "default" {
+		if a.arm == "default" {
 			continue
 		}
 		fmt.Printf("\temitSpec[%q] = []string{\n", a.method+"|"+a.arm)
